@@ -1,4 +1,4 @@
-import CifModel.Lemmas.ParserDefectFrame
+import CifModel.Lemmas.ParserDefectCode
 /-
   Props/C12Lex — the TOKEN-level classes of property C12 (each class of input defect is reported with its code and recovered as the
   table `@page error_recovery` of src/parser.c prescribes), universally, on the integrated parser model `Model.Parser`.
@@ -11,7 +11,7 @@ import CifModel.Lemmas.ParserDefectFrame
   `denoteElems` of the run in front ++ the repaired construct ++ the run behind), so the surroundings are unaffected.
   The table-key classes add: any well-formed entries before and behind the defective entry inside the table.
 
-  Proofs: Lemmas/ParserDefectLex.lean, Lemmas/ParserDefectFrame.lean (one step lemma per class; compositions `defect_run`
+  Proofs: Lemmas/ParserDefectLex.lean, Lemmas/ParserDefectFrame.lean, Lemmas/ParserDefectCode.lean (one step lemma per class; compositions `defect_run`
   [Lemmas/ParserDefect.lean], `item_defect_run`, `table_item_run_as`, `elems_defect_run`).
 -/
 namespace CifModel
@@ -309,6 +309,92 @@ theorem C12_invalid_itemname (o : Opts) {path : Path} {put : Container → Cif} 
             { log := r :: w.log, cif := put (.mk code fs (denoteItems o.dia o.normKey (pre ++ post) ls)) }
       ∧ r.code = CIF_INVALID_ITEMNAME ∧ Feeds o s' rest :=
   invalid_name_run o hv pre post n v seen seen2 rest s fuel w fs ls isBlock hcif hpre hseen hn0 hinv hwv hpost hseen2 hfuel hrest hF
+
+/-- **C12_invalid_framecode** — a save frame whose code is not a valid frame code: CIF_INVALID_FRAMECODE, the code is used anyway; any elements of the data block before and behind -/
+theorem C12_invalid_framecode (o : Opts) (done : Cif) (bcode : Str) (hfresh : ∀ c ∈ done, codeIs o.norm (o.norm bcode) c = false)
+    (hmfd : o.maxFrameDepth ≠ 0) (pre post : List Elem) (fc : Str) (body : List Item)
+    (seen fseen seen2 fseen2 : List Str) (rest : List TokSpec) (s : PS) (fuel : Nat) (w : W)
+    (fs : List Container) (ls : List Loop)
+    (hcif : w.cif = done ++ [.mk bcode fs ls]) (hpre : wfElems o pre seen fseen = true)
+    (hseen : ∀ k ∈ normNames o ls, k ∈ seen) (hfseen : ∀ c ∈ fs, o.norm c.code ∈ fseen)
+    (hn0 : noNul fc = true) (hinv : isValidName false fc = false)
+    (hnew : ∀ c ∈ (denoteElems o.dia o.normKey pre fs ls).1, codeIs o.norm (o.norm fc) c = false)
+    (hwb : wfItems o body [] = true)
+    (hpost : wfElems o post seen2 fseen2 = true)
+    (hseen2 : ∀ k ∈ normNames o (denoteElems o.dia o.normKey (pre ++ [.frame fc body]) fs ls).2, k ∈ seen2)
+    (hfseen2 : ∀ c ∈ (denoteElems o.dia o.normKey (pre ++ [.frame fc body]) fs ls).1, o.norm c.code ∈ fseen2)
+    (hfuel : szElems pre + szElems post + (szItems body + body.length + 3) + 1 ≤ fuel)
+    (hrest : ∃ ty tx ts, rest = (ty, tx) :: ts ∧ isTerminator ty = true)
+    (hF : Feeds o s (elemsToks pre ++ (((.frameHead, fc) :: (itemsToks body ++ [(.frameTerm, [])])) ++ (elemsToks post ++ rest)))) :
+    ∃ s' r, elemsLoop o (fuel + post.length + 1 + pre.length) s (some [o.norm bcode]) true acceptAll w
+        = elemsLoop o fuel s' (some [o.norm bcode]) true acceptAll
+            { log := r :: w.log,
+              cif := done ++ [.mk bcode (denoteElems o.dia o.normKey (pre ++ [.frame fc body] ++ post) fs ls).1
+                (denoteElems o.dia o.normKey (pre ++ [.frame fc body] ++ post) fs ls).2] }
+      ∧ r.code = CIF_INVALID_FRAMECODE ∧ Feeds o s' rest :=
+  invalid_framecode_run o done bcode hfresh hmfd pre post fc body seen fseen seen2 fseen2 rest s fuel w fs ls hcif hpre hseen hfseen hn0 hinv hnew hwb hpost hseen2 hfseen2 hfuel hrest hF
+
+/-- **C12_dup_framecode** — a save frame header whose normalised code the block already has (any spelling): CIF_DUP_FRAMECODE, the existing frame — wherever it stands among the frames — is reopened and receives the items; any elements before and behind -/
+theorem C12_dup_framecode (o : Opts) (done : Cif) (bcode : Str) (hfresh : ∀ c ∈ done, codeIs o.norm (o.norm bcode) c = false)
+    (hmfd : o.maxFrameDepth ≠ 0) (pre post : List Elem) (fc fc0 : Str) (body : List Item)
+    (seen fseen seen2 fseen2 bseen : List Str) (rest : List TokSpec) (s : PS) (fuel : Nat) (w : W)
+    (fs fa fb ffs : List Container) (ls fls : List Loop)
+    (hcif : w.cif = done ++ [.mk bcode fs ls]) (hpre : wfElems o pre seen fseen = true)
+    (hseen : ∀ k ∈ normNames o ls, k ∈ seen) (hfseen : ∀ c ∈ fs, o.norm c.code ∈ fseen)
+    (hcode : wfCode fc = true) (hk : o.norm fc0 = o.norm fc)
+    (hsplit : (denoteElems o.dia o.normKey pre fs ls).1 = fa ++ .mk fc0 ffs fls :: fb)
+    (ha : ∀ c ∈ fa, codeIs o.norm (o.norm fc) c = false) (hb : ∀ c ∈ fb, codeIs o.norm (o.norm fc) c = false)
+    (hwb : wfItems o body bseen = true) (hbseen : ∀ k ∈ normNames o fls, k ∈ bseen) (hpk : allPacked fls)
+    (hpost : wfElems o post seen2 fseen2 = true)
+    (hseen2 : ∀ k ∈ normNames o (denoteElems o.dia o.normKey pre fs ls).2, k ∈ seen2)
+    (hfseen2 : ∀ c ∈ (denoteElems o.dia o.normKey pre fs ls).1, o.norm c.code ∈ fseen2)
+    (hfuel : szElems pre + szElems post + (szItems body + body.length + 3) + 1 ≤ fuel)
+    (hrest : ∃ ty tx ts, rest = (ty, tx) :: ts ∧ isTerminator ty = true)
+    (hF : Feeds o s (elemsToks pre ++ (((.frameHead, fc) :: (itemsToks body ++ [(.frameTerm, [])])) ++ (elemsToks post ++ rest)))) :
+    ∃ s' r, elemsLoop o (fuel + post.length + 1 + pre.length) s (some [o.norm bcode]) true acceptAll w
+        = elemsLoop o fuel s' (some [o.norm bcode]) true acceptAll
+            { log := r :: w.log,
+              cif := done ++ [.mk bcode
+                (denoteElems o.dia o.normKey post (fa ++ .mk fc0 ffs (denoteItems o.dia o.normKey body fls) :: fb)
+                  (denoteElems o.dia o.normKey pre fs ls).2).1
+                (denoteElems o.dia o.normKey post (fa ++ .mk fc0 ffs (denoteItems o.dia o.normKey body fls) :: fb)
+                  (denoteElems o.dia o.normKey pre fs ls).2).2] }
+      ∧ r.code = CIF_DUP_FRAMECODE ∧ Feeds o s' rest :=
+  dup_framecode_run o done bcode hfresh hmfd pre post fc fc0 body seen fseen seen2 fseen2 bseen rest s fuel w fs fa fb ffs ls fls hcif hpre hseen hfseen hcode hk hsplit ha hb hwb hbseen hpk hpost hseen2 hfseen2 hfuel hrest hF
+
+/-- **C12_invalid_blockcode** — a data block whose code is not a valid block code: CIF_INVALID_BLOCKCODE, the code is used anyway — whole block loop of parse_cif, any blocks before and behind -/
+theorem C12_invalid_blockcode (o : Opts) (hstore : o.store = true) (hmfd : o.maxFrameDepth ≠ 0) (pre post : List Block) (b : Block)
+    (bseen bseen2 : List Str) (s : PS) (fuel : Nat) (w : W)
+    (hpre : wfBlocks o pre bseen = true) (hseen : ∀ c ∈ w.cif, o.norm c.code ∈ bseen)
+    (hn0 : noNul b.code = true) (hinv : isValidName false b.code = false)
+    (hnew : ∀ c ∈ w.cif ++ denote o.dia o.normKey pre, codeIs o.norm (o.norm b.code) c = false)
+    (hwb : wfElems o b.body [] [] = true) (hpost : wfBlocks o post bseen2 = true)
+    (hseen2 : ∀ c ∈ w.cif ++ denote o.dia o.normKey (pre ++ [b]), o.norm c.code ∈ bseen2)
+    (hfuel : szBlocks pre + szBlock b + szBlocks post + 1 ≤ fuel)
+    (hF : Feeds o s (blocksToks pre ++ ((.blockHead, b.code) :: (elemsToks b.body ++ (blocksToks post ++ [(.end_, [])]))))) :
+    ∃ s' r, blocksLoop o (fuel + post.length + 1 + pre.length) s acceptAll w
+        = .ok s' { log := r :: w.log, cif := w.cif ++ denote o.dia o.normKey (pre ++ [b] ++ post) }
+      ∧ r.code = CIF_INVALID_BLOCKCODE :=
+  invalid_blockcode_run o hstore hmfd pre post b bseen bseen2 s fuel w hpre hseen hn0 hinv hnew hwb hpost hseen2 hfuel hF
+
+/-- **C12_dup_blockcode** — a data block header whose normalised code the CIF already has (any spelling): CIF_DUP_BLOCKCODE, the existing block — wherever it stands in the CIF — is reopened and receives the items; whole block loop, any blocks before and behind -/
+theorem C12_dup_blockcode (o : Opts) (hstore : o.store = true) (hmfd : o.maxFrameDepth ≠ 0) (pre post : List Block)
+    (code code0 : Str) (body : List Item) (bseen bseen2 iseen : List Str) (s : PS) (fuel : Nat) (w : W)
+    (ca cb : Cif) (bfs : List Container) (bls : List Loop)
+    (hpre : wfBlocks o pre bseen = true) (hseen : ∀ c ∈ w.cif, o.norm c.code ∈ bseen)
+    (hcode : wfCode code = true) (hk : o.norm code0 = o.norm code)
+    (hsplit : w.cif ++ denote o.dia o.normKey pre = ca ++ .mk code0 bfs bls :: cb)
+    (ha : ∀ c ∈ ca, codeIs o.norm (o.norm code) c = false) (hb : ∀ c ∈ cb, codeIs o.norm (o.norm code) c = false)
+    (hwb : wfItems o body iseen = true) (hiseen : ∀ k ∈ normNames o bls, k ∈ iseen) (hpk : allPacked bls)
+    (hpost : wfBlocks o post bseen2 = true)
+    (hseen2 : ∀ c ∈ w.cif ++ denote o.dia o.normKey pre, o.norm c.code ∈ bseen2)
+    (hfuel : szBlocks pre + (szItems body + body.length + 3) + szBlocks post + 1 ≤ fuel)
+    (hF : Feeds o s (blocksToks pre ++ ((.blockHead, code) :: (itemsToks body ++ (blocksToks post ++ [(.end_, [])]))))) :
+    ∃ s' r, blocksLoop o (fuel + post.length + 1 + pre.length) s acceptAll w
+        = .ok s' { log := r :: w.log,
+                   cif := (ca ++ .mk code0 bfs (denoteItems o.dia o.normKey body bls) :: cb) ++ denote o.dia o.normKey post }
+      ∧ r.code = CIF_DUP_BLOCKCODE :=
+  dup_blockcode_run o hstore hmfd pre post code code0 body bseen bseen2 iseen s fuel w ca cb bfs bls hpre hseen hcode hk hsplit ha hb hwb hiseen hpk hpost hseen2 hfuel hF
 
 /-! ### the three readings of `C12_frame_unterminated`, each with its code -/
 
